@@ -92,7 +92,11 @@ def engine_cases(
             dies = draw(st.booleans())
             full = chance(draw, 50)  # a holder that takes everything makes our jobs wait for it
             extras.append(["facq", f, ti, toks[ti]["total"] if full else draw(st.integers(1, toks[ti]["total"])), draw(st.booleans()), dies])
-            if chance(draw, 60):
+            if chance(draw, 25):
+                # its job ends and a third scheduler's watcher removes the file (no lock taken by the
+                # reclaim thread) exactly between our listing of the directory and our read of the file
+                extras.append(["freadrace", f, ti])
+            elif chance(draw, 60):
                 # that holder releases exactly when one of our acquisitions is refused
                 extras.append(["frelrace", f, ti])
             if len(file_toks) > 1 and chance(draw, 50):
